@@ -5,8 +5,9 @@ ID=$1; N=${2:-1}; SUF=${3:-}; W=/tmp/mut/$ID$SUF; OUT=/verif/seeded/$ID-$N
 mkdir -p $OUT; cp $W/out/patch.diff $W/out/meta.json $OUT/ 2>/dev/null; cp $W/out/demo.diff $OUT/ 2>/dev/null
 export CARGO_NET_OFFLINE=true
 cd $W || exit 2
-DEMO=$(python3 -c "import json;print(json.load(open('$OUT/meta.json')).get('demo_cmd','').replace('&amp;','&'))")
-CARGO_TARGET_DIR=$W/target cargo test --offline --workspace --no-fail-fast > $OUT/suite_with_change.log 2>&1
+T=${CONFIRM_TARGET:-$W/target}   # CONFIRM_TARGET: one shared target dir for sequential confirmations (saves disk; package ids differ per worktree path)
+DEMO=$(python3 -c "import json;print(json.load(open('$OUT/meta.json')).get('demo_cmd','').replace('&amp;','&').replace('CARGO_TARGET_DIR=$W/target/verif','CARGO_TARGET_DIR=$T/verif').replace('CARGO_TARGET_DIR=$W/target','CARGO_TARGET_DIR=$T'))")
+CARGO_TARGET_DIR=$T cargo test --offline --workspace --no-fail-fast > $OUT/suite_with_change.log 2>&1
 WITH_FAILED=$(grep -E "^test [^ ]+ \.\.\. FAILED" $OUT/suite_with_change.log | sort -u | tr '\n' ';')
 WITH_SUMMARY=$(grep -E "^test result" $OUT/suite_with_change.log | tr '\n' ';')
 bash -c "$DEMO" > $OUT/demo_with_change.log 2>&1; D1=$?
